@@ -16,6 +16,7 @@ pub trait WorldDriver: Sized {
     fn xqueries() -> Vec<XQuery>;
     fn construct(ctor: Ctor, caps: &[usize]) -> Self;
     fn clone_world(&self) -> Self;
+    fn clone_from_world(&mut self, src: &Self);
 
     fn len(&self, a: usize) -> usize;
     fn capacity(&self, a: usize) -> usize;
@@ -1057,6 +1058,7 @@ macro_rules! world_driver {
             fn xqueries() -> Vec<$crate::types::XQuery> { $xqueries() }
             fn construct(ctor: $crate::types::Ctor, caps: &[usize]) -> Self { $construct(ctor, caps) }
             fn clone_world(&self) -> Self { self.clone() }
+            fn clone_from_world(&mut self, src: &Self) { self.clone_from(src) }
 
             fn len(&self, a: usize) -> usize { match a { $( $i => $m::len(self), )+ _ => unreachable!() } }
             fn capacity(&self, a: usize) -> usize { match a { $( $i => $m::capacity(self), )+ _ => unreachable!() } }
